@@ -272,10 +272,23 @@ class ConfigImpl:
         return {"kind": k, "cfg": cfg, "ncfg": ncfg, "sizes": sizes, "tens": tens, "path": [dict(p) for p in self.path]}
 
     # ---------------------------------------------------------------- probe: same outputs as a fresh one
+    def _drop_ad(self):
+        """every other instance clears its neurons with keep_adaptations=False (where the class offers it): the learned
+        adaptations are then reset too, and the cleared neuron must equal a freshly constructed one as it is"""
+        import inspect
+        if self.kind not in ("neuron", "layer") or self.seed % 2 == 0:
+            return False
+        return "keep_adaptations" in inspect.signature(type(self._neuron()).clear).parameters
+
     def _clear(self, o):
         if self.kind == "layer":          # components directly (Layer.clear is covered by C17)
             o.connection.clear()
-            o.neuron.clear()
+            if self._drop_ad():
+                o.neuron.clear(keep_adaptations=False)
+            else:
+                o.neuron.clear()
+        elif self.kind == "neuron" and self._drop_ad():
+            o.clear(keep_adaptations=False)
         elif self.kind == "reducer" and self.hdr.get("warm") == "ks":
             o.clear(keepshape=True)
         else:
@@ -293,7 +306,7 @@ class ConfigImpl:
         if self.kind in ("neuron", "layer"):
             # adaptations are learned state (kept by clear), not configuration
             a, b = self._neuron(), self._neuron(f)
-            if hasattr(a, "threshold_adaptation"):
+            if hasattr(a, "threshold_adaptation") and not self._drop_ad():
                 b.threshold_adaptation = a.threshold_adaptation.clone()
         return f
 
@@ -338,6 +351,19 @@ class ConfigImpl:
     def _probe(self):
         self.detail = None
         o = self.obj
+        if self.kind in ("neuron", "layer"):
+            # a few strongly driven steps first: adaptive neurons then carry LEARNED adaptations into the clear (kept by
+            # clear(), dropped by clear(keep_adaptations=False))
+            g0 = torch.Generator().manual_seed(self.seed + 17)
+            r0 = self.reported()
+            for _ in range(4):
+                try:
+                    if self.kind == "neuron":
+                        o((torch.rand((int(r0["batchsz"]), *SHAPE), generator=g0) * 80).to(self._float_dtype()))
+                    else:
+                        o((torch.rand((int(r0["batchsz"]), *self._conn().inshape), generator=g0) < 0.8).to(self._float_dtype()))
+                except Exception:
+                    break
         self._clear(o)
         f = self._fresh()
         r = self.reported()
